@@ -163,7 +163,7 @@ func explore(r *runner.Run, i, n int, deadline time.Time) *shardReply {
 
 func TestCheck(t *testing.T) {
 	r := runner.Start("C07", "exploration")
-	deadline := r.Deadline(80*time.Second, 11*time.Minute)
+	deadline := r.Deadline(80*time.Second, 13*time.Minute)
 
 	if _, child := runner.IsShard(); child {
 		var i, n int
@@ -276,7 +276,7 @@ func TestCheck(t *testing.T) {
 	r.Set("unicode_alphabet_code_points", len(cpAlphabet()))
 	r.Set("bounded_queue_bounds", runner.Pick(r,
 		"max_depth {1,2} x drop_policy {drop_oldest,reject} x delivered_retention {off,on} (+ memory retained-items pressure limit 1, max_depth {1,2}, there also every one-step continuation of I I D A and I D I A); every operation sequence of length <= 4 (memory) / <= 3 (sqlite) over {I,P1,P2,P3,Pex,Bdup,SdupO,SdupN,D,A,N} (push: enqueue operations only)",
-		"max_depth {1,2,3} x drop_policy {drop_oldest,reject} x delivered_retention {off,on} (+ memory retained-items pressure limit 1, max_depth {1,2}); every operation sequence of length <= 5 (memory) / <= 4 (sqlite) over {I,P1,P2,P3,Pex,Bdup,SdupO,SdupN,D,A,N} (push: enqueue operations only)"))
+		"max_depth {1,2,3} x drop_policy {drop_oldest,reject} x delivered_retention {off,on} (+ memory retained-items pressure limit 1, max_depth {1,2}); every operation sequence of length <= 5 (memory) / <= 4 (sqlite) over {I,P1,P2,P3,Pex,Bdup,SdupO,SdupN,D,A,N} (push: enqueue operations only, length <= 4)"))
 	r.Set("rule", "nested loops: sweep{body,header,unicode,publish-header,boundary} x case x way-in{ingress raw HTTP/1.1, admin publish payload_b64, Store.Enqueue (unicode sweep)} x flow{pull http>grpc, pull grpc>http, push} x backend{memory,sqlite}; "+
 		"unicode sweep: first and last code point of every Unicode general category in the BMP and above U+FFFF plus the JSON/Go escaping boundary code points, as header value (embedded and alone) and as payload; "+
 		"bounded-queue family: every operation sequence within bounded_queue_bounds on a queue with queue_limits, every message visible after every operation and in the delivery flow afterwards is compared (which messages survive is not judged); "+
